@@ -233,8 +233,8 @@ impl Prop for Interleave {
     }
     fn rule() -> &'static str {
         "bounded-exhaustive: all sequences over {write a, write b, finalize} of length <= L (quick 6, thorough 8) x ending {drop, \
-         finalize+drop, write_shapes(0), write_shapes(2)} x {with shx, without} x 13 types; a, b are generated shapes (fixed per seed and \
-         type, b longer than a where the type allows). Oracle: final .shp/.shx bytes == bytes of 'write the same shapes, drop' (itself \
+         finalize+drop, write_shapes(0), write_shapes(2)} x {with shx, without} x 13 types x 3 (thorough 6) generated shape pairs a, b per type (fixed per seed, b longer \
+         than a where the type allows). Oracle: final .shp/.shx bytes == bytes of 'write the same shapes, drop' (itself \
          validated by the independent strict decoder); after every successful finalize both destinations are flushed and decode to \
          exactly the shapes written so far with a matching index; a finalize directly after a successful finalize issues no I/O. \
          Non-trivial: a finalize that is not the last call before the writer goes away"
@@ -286,11 +286,14 @@ impl SeqIter {
 impl EnumProp for Interleave {
     fn enumerate(env: &Env) -> Box<dyn Iterator<Item = WHist>> {
         let max_len = env.pickn(6, 8);
+        let npairs = env.pickn(3, 6);
         let pairs: Vec<(Ty, Geom, Geom)> = ALL13
             .iter()
-            .map(|t| {
-                let (a, b) = sample_pair(*t, env.seed, 0);
-                (*t, a, b)
+            .flat_map(|t| {
+                (0..npairs).map(move |k| {
+                    let (a, b) = sample_pair(*t, env.seed, k);
+                    (*t, a, b)
+                })
             })
             .collect();
         let endings = [Ending::Drop, Ending::FinalizeDrop, Ending::WriteShapes(0), Ending::WriteShapes(2)];
@@ -496,7 +499,7 @@ impl Prop for OneType {
     }
     fn rule() -> &'static str {
         "bounded-exhaustive: all 13x12 ordered pairs (first type, offered type) x all sequences over {write first-type, write \
-         offered-type, finalize} of length <= L (quick 5, thorough 7) x {ShapeWriter with shx, without, complete Writer with dbf}. The \
+         offered-type, finalize} of length <= L (quick 6, thorough 8) x {ShapeWriter with shx, without, complete Writer with dbf}. The \
          type is fixed by the first accepted write; every later write of the other type must return MismatchShapeType{requested: file \
          type, actual: offered}, leave the op log and bytes of every destination (dbf included) unchanged, and the final files must equal \
          those of the same history with the rejected calls removed. Non-trivial: a rejected call followed by an accepted write"
@@ -550,7 +553,7 @@ impl Prop for OneType {
 
 impl EnumProp for OneType {
     fn enumerate(env: &Env) -> Box<dyn Iterator<Item = THist>> {
-        let max_len = env.pickn(5, 7);
+        let max_len = env.pickn(6, 8);
         let cfg = gen::GenCfg::new(gen::Profile::Small, false, 2, 3);
         let geoms: Vec<Geom> = ALL13
             .iter()
